@@ -578,6 +578,10 @@ func Run(r *core.Run) {
 			}
 		}
 	}
+	if os.Getenv("C14_HIST_ONLY") != "" { // developer switch: only the history dimension (never in the registered commands)
+		jobs = nil
+		r.Assume("DEVELOPER RUN: C14_HIST_ONLY set, the matrix was not replayed")
+	}
 	r.Set("matrix_cells", len(jobs))
 	r.Set("contradictory_configurations_skipped", inconsistent)
 	r.Logf("%d cells, %d allowed sets, %d matrix cells to build", len(cells), len(allows), len(jobs))
